@@ -2091,6 +2091,7 @@ class Parameters(ProperType):
             "arg_kinds": [int(x.value) for x in self.arg_kinds],
             "arg_names": self.arg_names,
             "variables": [tv.serialize() for tv in self.variables],
+            "is_ellipsis_args": self.is_ellipsis_args,
             "imprecise_arg_kinds": self.imprecise_arg_kinds,
         }
 
@@ -2104,6 +2105,7 @@ class Parameters(ProperType):
             [ARG_KINDS[x] for x in data["arg_kinds"]],
             data["arg_names"],
             variables=[cast(TypeVarLikeType, deserialize_type(v)) for v in data["variables"]],
+            is_ellipsis_args=data["is_ellipsis_args"],
             imprecise_arg_kinds=data["imprecise_arg_kinds"],
         )
 
@@ -2113,6 +2115,7 @@ class Parameters(ProperType):
         write_int_list(data, [int(x.value) for x in self.arg_kinds])
         write_str_opt_list(data, self.arg_names)
         write_type_list(data, self.variables)
+        write_bool(data, self.is_ellipsis_args)
         write_bool(data, self.imprecise_arg_kinds)
         write_tag(data, END_TAG)
 
@@ -2125,6 +2128,7 @@ class Parameters(ProperType):
             [ARG_KINDS[ak] for ak in read_int_list(data)],
             read_str_opt_list(data),
             variables=read_type_var_likes(data),
+            is_ellipsis_args=read_bool(data),
             imprecise_arg_kinds=read_bool(data),
         )
         assert read_tag(data) == END_TAG
